@@ -99,6 +99,11 @@ def history(c, rec):
     eps = 0.0
     decisions = {k: [] for k in names}
     for k, (nu, s_mat, q_exact) in enumerate(data):
+        if k:
+            # the detectors live inside the filter, which travels through the Ray object store between steps (read-only arrays)
+            from vf import raydouble
+
+            dets = raydouble._loads(raydouble._dumps(dets))
         q = q_exact
         q_num = float(nu @ np.linalg.solve(s_mat, nu))
         # (sanity of the construction only; solve() itself is good to ~eps * cond(S), and cond(S) reaches 1e12 for the widest scale spreads)
